@@ -40,7 +40,7 @@ def evaluate(name, checks, budget='40'):
             proc = subprocess.run([PY, demo, os.path.join(wtree, 'src')], capture_output=True, text=True, timeout=600)
             out['demo_with_change'] = 'exit %d' % proc.returncode
         for check in checks:
-            env = dict(os.environ, VERIF_REPO_SRC=os.path.join(wtree, 'src'), VERIF_MIN_BUDGET_S='10')
+            env = dict(os.environ, VERIF_REPO_SRC=os.path.join(wtree, 'src'), VERIF_MIN_BUDGET_S='10', VERIF_OUT_DIR=tmp)
             proc = subprocess.run([os.path.join(VERIF, 'check'), check, '--tier', 'quick', '--budget', budget], env=env, capture_output=True, text=True, cwd=VERIF)
             sigs = [line.split(' ')[1] for line in proc.stdout.splitlines() if line.startswith('violation:')]
             out['checks'][check] = dict(exit=proc.returncode, signatures=sigs)
